@@ -2069,12 +2069,21 @@ func (tb *Table) RemoveDeletedPart() {
 	removeWG.Wait()
 }
 
+// ErrPartsSkipped is returned by RemoveItemsByDelTsidsFromParts when it has left parts alone because they are being merged:
+// items of deleted tsids may remain in them (and in the part the merge produces), so the deleted tsids must not be forgotten.
+var ErrPartsSkipped = errors.New("parts that are being merged were not filtered")
+
 func (tb *Table) RemoveItemsByDelTsidsFromParts(delTsids *uint64set.Set) error {
 	tb.partsLock.Lock()
 	temp := tb.parts
 	pws := make([]*partWrapper, 0)
+	skipped := false
 	for i := 0; i < len(temp); i++ {
-		if temp[i].isInMerge || temp[i].isDeleteTsids {
+		if temp[i].isInMerge {
+			skipped = true
+			continue
+		}
+		if temp[i].isDeleteTsids {
 			continue
 		}
 		temp[i].isDeleteTsids = true
@@ -2089,6 +2098,9 @@ func (tb *Table) RemoveItemsByDelTsidsFromParts(delTsids *uint64set.Set) error {
 		}
 	}
 
+	if skipped {
+		return ErrPartsSkipped
+	}
 	return nil
 }
 
